@@ -171,6 +171,22 @@ theorem store_refines_map_run_lem (np : Bool) (s : St) (ops : List Op) :
     funext a q
     exact store_refines_map_lem np s op a q
 
+theorem remove_output_lem (np : Bool) (s : St) (sid seq : Nat) (v : Groups) :
+    (step np s (.remove sid seq)).2 = .removed v ↔ absGet s sid seq = some v := by
+  simp only [step, absGet]
+  cases hm : alGet sid s with
+  | none => simp
+  | some m =>
+    cases hv : alGet seq m with
+    | none => simp [hv]
+    | some w => simp [hv]
+theorem list_output_lem (np : Bool) (s : St) (sid : Nat) (m : List (Nat × Groups))
+    (h : (step np s (.list sid)).2 = .listed m) : ∀ q, alGet q m = absGet s sid q := by
+  simp only [step, absGet] at *
+  cases hm : alGet sid s with
+  | none => rw [hm] at h; simp at h
+  | some m' => rw [hm] at h; simp at h; subst h; intro q; rfl
+
 end Iscp.Store
 
 namespace Iscp.Corr
